@@ -2,7 +2,7 @@
    case:  run <variant: 7 flags dupclose,bcap,capclose,capfail,bunop,bfold,capfirst e.g. 1111100 = the code as it is> <capture 0|1> <failing pipe() calls: - or 0,2> <unopenable paths: - or 3,4>
               <initial table: 0,1,2,5x>  <stages: K:FROM:REDIRS:PRINTS|...>
    K = E(xternal) B(uiltin) N(ot found); FROM = - | h | <N ; REDIRS = - or comma list of
-   1tN 1aN 2tN 2aN (trunc/append to path N) 2&1 1&2 1&1 2&2 ; PRINTS = string of o / e or - *)
+   1tN 1aN 2tN 2aN (trunc/append to path N) 2&1 1&2 1&1 2&2 ; PRINTS = string of o / e (O / E: empty text) or - *)
 open Fds_model
 open Codec
 
@@ -26,7 +26,9 @@ let parse_stage s : stage =
       s_from = (if f = "-" then FNone else if f = "h" then FHere
                 else FFile (nat_of_int (int_of_string (String.sub f 1 (String.length f - 1)))));
       s_redirs = List.map parse_redir (split ',' r);
-      s_prints = (if pr = "-" then [] else List.init (String.length pr) (fun i -> pr.[i] = 'o')) }
+      (* o / e: print_stdout / print_stderr with a text; O / E: with an EMPTY text *)
+      s_prints = (if pr = "-" then [] else List.init (String.length pr) (fun i ->
+                    ((pr.[i] = 'o' || pr.[i] = 'O'), (pr.[i] = 'O' || pr.[i] = 'E')))) }
   | _ -> failwith "bad stage"
 
 let parse_table s : table =
